@@ -281,6 +281,10 @@ def named_const(eng, st, fr, c):
             vs = None
         if vs and segs[-1] in vs:
             return Agg('enum', '::'.join(segs[:-1]), '::'.join(segs), [])
+    for cr in eng.prog.crates.values():
+        ic = cr.inline_consts.get(segs[-1])
+        if ic is not None:
+            return eng.const_value(st, fr, ic[1])
     # constants defined in the loaded crates: evaluate their MIR body
     for cr in eng.prog.crates.values():
         for f in cr.by_last.get(segs[-1], []):
@@ -800,7 +804,7 @@ def m_into_iter(eng, st, call):
         a, v = base_ref(eng, st, a)
     else:
         v = a
-    if isinstance(v, IterV):
+    if isinstance(v, IterV) or (isinstance(v, Agg) and v.ty == 'RangeInclusive'):
         return [(st, v)]
     if isinstance(v, SeqV) and by_ref:
         return [(st, IterV([Ref(a.loc, a.path + (('i', k),), a.mut) for k in range(len(v.items))], 'ref'))]
@@ -996,4 +1000,58 @@ STD_MODELS += [
     (R(r' as (std::iter::)?Iterator>::next$'), m_iter_next),
     (R(r' as (std::iter::)?Iterator>::(all|any)::<'), m_iter_all_any),
     (R(r' as (std::iter::)?Iterator>::(find|position|find_map)::<'), m_iter_find),
+]
+
+
+# ---- RangeInclusive<u64> and Rev<...> ------------------------------------------------------------------------
+
+class _Range:
+    pass
+
+
+def m_range_new(eng, st, call):
+    a, b = call.args
+    return [(st, Agg('struct', 'RangeInclusive', None, [a, b, z3.BoolVal(False), z3.BoolVal(False)]))]   # start, end, exhausted, reversed
+
+
+def m_range_rev(eng, st, call):
+    r = call.args[0]
+    if isinstance(r, Agg) and r.ty == 'RangeInclusive':
+        return [(st, Agg('struct', 'RangeInclusive', None, [r.fields[0], r.fields[1], r.fields[2], z3.Not(r.fields[3])]))]
+    return None
+
+
+def m_range_next(eng, st, call):
+    a = call.args[0]
+    if not isinstance(a, Ref):
+        return None
+    a, r = base_ref(eng, st, a)
+    if not (isinstance(r, Agg) and r.ty == 'RangeInclusive'):
+        return None
+    lo, hi, ex, rev = r.fields
+    rev = z3.is_true(z3.simplify(rev))
+    out = []
+    empty = z3.Or(ex, z3.UGT(lo, hi))
+    for s2, is_empty in bool_cases(eng, st, empty):
+        if is_empty:
+            out.append((s2, NONE())); continue
+        for s3, last in bool_cases(eng, s2, lo == hi):
+            r3 = eng.read(s3, a.loc, a.path)
+            lo3, hi3 = r3.fields[0], r3.fields[1]
+            if last:
+                r3.fields[2] = z3.BoolVal(True)
+                out.append((s3, SOME(hi3 if rev else lo3)))
+            elif rev:
+                r3.fields[1] = hi3 - 1
+                out.append((s3, SOME(hi3)))
+            else:
+                r3.fields[0] = lo3 + 1
+                out.append((s3, SOME(lo3)))
+    return out
+
+
+STD_MODELS[:0] = [
+    (R(r'RangeInclusive::<(u8|u16|u32|u64|usize)>::new$'), m_range_new),
+    (R(r'^<(std::ops::|core::ops::)?RangeInclusive<\w+> as Iterator>::rev$'), m_range_rev),
+    (R(r'^<(Rev<)?(std::ops::|core::ops::)?RangeInclusive<\w+>>? as Iterator>::next$'), m_range_next),
 ]
